@@ -133,7 +133,8 @@ def run (ts : List String) : Option String :=
       | ["-"] => some none
       | [v] => (parseNat v).map some
       | _ => none
-    pure (hexRes (kb.encryptImage c base d swap cv))
+    -- the harness constructs the KeyBlob first
+    pure (if kb.ctorOk then hexRes (kb.encryptImage c base d swap cv) else "E:spsdk")
   | "otfad_plain" :: ts => do
     let (kb, ts) ← pKeyBlob ts
     let (rnd, _) ← pHex ts
